@@ -622,6 +622,28 @@ def skelConversions : List String :=
    "return o, json.Unmarshal([]byte(s), &o)",  -- oracle keys "jobj" / "jarr"
    "json.Unmarshal"]  -- decoded by the harness into Raw (.val / .bad / .empty / .nil): encoding/json is an oracle
 
+/-- nameGenerator.GenerateName (internal/names/generate.go)  —  mirrored by the name oracle NameGen in renderTpl:
+keep (named already / no generateName), name n (the probe answered NotFound), fail (ANY other answer
+of the probe – a no-match error of an unserved kind included –, or ten taken names) -/
+def skelGenerateName : List String :=
+  ["if cd.GetName() != \"\" || cd.GetGenerateName() == \"\"",  -- `if getMetaStr cd2 "name" != "" || getMetaStr cd2 "generateName" == ""` in renderTpl
+   "cd.GetName",  -- getMetaStr cd2 "name"
+   "cd.GetGenerateName",  -- getMetaStr cd2 "generateName"
+   "return nil",  -- (cd2, false): nothing to do
+   "range maxTries",  -- not modelled: the up-to-ten probes are folded into the oracle's answer
+   "namer.GenerateName",  -- oracle: the random suffix (NameGen.name n)
+   "cd.GetGenerateName",  -- (same)
+   "obj.SetGroupVersionKind",  -- the probe is for the resource's own kind
+   "cd.GetObjectKind.GroupVersionKind",  -- kindOf cd2
+   "cd.GetObjectKind",  -- (same call chain)
+   "reader.Get",  -- the availability probe; for an unserved kind the real generator runs against a server answering NoKindMatchError
+   "if kerrors.IsNotFound(err)",  -- ONLY NotFound means "the name is free": NameGen.name n
+   "kerrors.IsNotFound",  -- (same)
+   "cd.SetName",  -- setMeta cd2 "name" (.str n)
+   "return nil",  -- rendered
+   "return err",  -- NameGen.fail: every other answer of the probe fails the name generation -> the resource is not rendered
+   "return errors.New(errGenerateName)"]  -- NameGen.fail: ten names taken
+
 /-- values of the API constants the model's `match`es are written against (string literals in Model/C10*.lean) -/
 def declaredConsts : List (String × String) :=
   [("TransformTypeMap", "map"),
